@@ -339,6 +339,13 @@ func run(id string, sc scen) runner.Result {
 			terminalInFlight = true
 		}
 	}
+	// the application's own Close/CloseSend/SendError in flight may end the send side before the cancel does
+	ownEndInFlight := terminalInFlight
+	for _, o := range ops {
+		if o.blocked && o.name == "closesend" {
+			ownEndInFlight = true
+		}
+	}
 	// 1. every operation of the RPC returned
 	for _, o := range ops {
 		if !o.op.Returned() {
@@ -374,6 +381,11 @@ func run(id string, sc scen) runner.Result {
 		case o.inTransp && !sc.soft:
 			if !errors.Is(err, ctxErr) {
 				failf("%s was blocked inside the transport write (default cancel mode) and returned %q, want the context's error", o.name, rig.ErrStr(err))
+			}
+		case o.name == "send-lock" && !sc.soft && !ownEndInFlight:
+			// a send blocked behind another goroutine's send is a blocked send as well
+			if !errors.Is(err, ctxErr) {
+				failf("%s was blocked behind another send (default cancel mode) and returned %q, want the context's error", o.name, rig.ErrStr(err))
 			}
 		}
 	}
@@ -605,6 +617,94 @@ func finishRace(id string, soft bool, where string) runner.Result {
 	return res
 }
 
+// finishRaceQueued: as finishRace, but a second goroutine is already waiting for its turn on the
+// connection (NewStream queued behind RPC 1) when RPC 1 finishes and is cancelled together. Whatever
+// the connection decides (carry on, or close itself), every call must return: RPC 1's, the queued
+// NewStream and what is done with its stream, and Conn.Close at the end.
+func finishRaceQueued(id string, soft bool, where string, serverEnds string, idle bool) runner.Result {
+	mopts := drpcmanager.Options{SoftCancel: soft}
+	handler := rig.HandlerFunc(func(stream drpc.Stream, rpc string) error {
+		var m []byte
+		if err := stream.MsgRecv(&m, payload.Enc{}); err != nil {
+			return nil
+		}
+		switch serverEnds {
+		case "error":
+			return errors.New("handler error")
+		case "close":
+			return stream.Close()
+		}
+		return nil
+	})
+	rg := rig.New(rig.Config{Net: simnet.Opts{Cap: -1}, Client: mopts, Server: mopts}, handler)
+	defer rg.Teardown()
+	park := rg.Dir.ParkAt(where, rg.Pair.A, 1)
+	ctx1, cancel1 := context.WithCancel(context.Background())
+	defer cancel1()
+	proceed := make(chan struct{})
+	first := rig.Go("rpc1", func() (interface{}, error) {
+		st, err := rg.Conn.NewStream(ctx1, "/first", payload.Enc{})
+		if err != nil {
+			return nil, err
+		}
+		m := payload.Make(1, 0, 0, 0, 10)
+		st.MsgSend(&m, payload.Enc{})
+		if idle {
+			// no call in flight when the server's last packet arrives: the connection's reader
+			// itself completes the stream
+			<-proceed
+		}
+		var out []byte
+		st.MsgRecv(&out, payload.Enc{})
+		return nil, st.Close()
+	})
+	ctx2, cancel2 := context.WithCancel(context.Background())
+	defer cancel2()
+	started := make(chan struct{})
+	second := rig.Go("rpc2", func() (interface{}, error) {
+		<-started
+		st, err := rg.Conn.NewStream(ctx2, "/second", payload.Enc{})
+		if err != nil {
+			return nil, err
+		}
+		m := payload.Make(2, 0, 0, 0, 10)
+		st.MsgSend(&m, payload.Enc{})
+		var out []byte
+		st.MsgRecv(&out, payload.Enc{})
+		return nil, st.Close()
+	})
+	// rpc2 queues behind rpc1 as soon as rpc1 holds the connection
+	close(started)
+	census.QuiesceOr(park.Reached(), rig.Watchdog)
+	reached := park.IsReached()
+	census.Quiesce(rig.Watchdog)
+	queued := !second.Returned()
+	cancel1()
+	census.Quiesce(rig.Watchdog)
+	park.Release()
+	census.Quiesce(rig.Watchdog)
+	close(proceed)
+	census.Quiesce(rig.Watchdog)
+	cancel2()
+	_, snap := census.Quiesce(rig.Watchdog)
+	desc := fmt.Sprintf("finish-race-queued soft=%v server-ends=%s client-idle=%v: rpc1 cancelled while parked at %s (reached=%v) with rpc2 waiting for its turn (queued=%v), then rpc2 cancelled", soft, serverEnds, idle, where, reached, queued)
+	key := fmt.Sprintf("cancel:finish-race-queued soft=%v", soft)
+	if !first.Returned() {
+		return runner.Violation(id, key+" rpc1-never-returns", desc+"\nrpc1 (cancelled) never returned\n"+census.Dump(census.InDRPC(snap)))
+	}
+	if !second.Returned() {
+		return runner.Violation(id, key+" rpc2-never-returns", desc+"\nrpc2 (cancelled) never returned\n"+census.Dump(census.InDRPC(snap)))
+	}
+	closer := rig.Go("conn-close", func() (interface{}, error) { return nil, rg.Conn.Close() })
+	_, snap = census.Quiesce(rig.Watchdog)
+	if !closer.Returned() {
+		return runner.Violation(id, key+" conn-close-never-returns", desc+"\nConn.Close after both cancelled RPCs never returned\n"+census.Dump(census.InDRPC(snap)))
+	}
+	res := runner.Hold(id, desc, reached && queued)
+	res.Events = 3
+	return res
+}
+
 // terminalWaitsForWriteLock: some Close/CloseSend/SendError is queued on a lock (the write lock,
 // which it waits for while holding the state lock) and some other call is inside the transport's Write.
 func terminalWaitsForWriteLock(snap []census.G) bool {
@@ -708,6 +808,17 @@ func gen(tier string, seed uint64) []runner.Scenario {
 	}
 	r := &payload.SplitMix{S: payload.Hash(seed, 0xC04)}
 	var out []runner.Scenario
+	for _, soft := range []bool{false, true} {
+		for _, where := range []string{"stream.fin", "manager.stream.fin", "stream.close.mu", "manager.stream.ctx", "manager.stream.beforeSendCancel", "manager.newstream.published"} {
+			for _, ends := range []string{"return", "error", "close"} {
+				for _, idle := range []bool{false, true} {
+					soft, where, ends, idle := soft, where, ends, idle
+					id := fmt.Sprintf("finish-race-queued/soft=%v/%s/%s/idle=%v", soft, where, ends, idle)
+					out = append(out, runner.Scenario{ID: id, Run: func() runner.Result { return finishRaceQueued(id, soft, where, ends, idle) }})
+				}
+			}
+		}
+	}
 	for _, soft := range []bool{false, true} {
 		for _, where := range []string{"stream.fin", "manager.stream.fin", "stream.close.mu", "stream.closesend.emit"} {
 			for rep := 0; rep < 3; rep++ {
